@@ -6,7 +6,7 @@ from vfw.lifecycle import E
 
 LEVEL = 'model_checking'
 ASSUMPTIONS = [
-    'alphabet: clients {a,b}, counts {1,2,3}, algorithm delivery in {N, N-1, N+1, N+2, 0} as an environment answer per call',
+    'alphabet: clients {a,b}, counts {1,2,3}, algorithm delivery in {N, N-1, N+1, N+2, 0} as an environment answer per call; plus a plan with two studies whose ids differ only by a SQL LIKE wildcard, one worker suggesting in both',
     'which REQUESTED trial is handed out and which suggestion gets which fresh id is left open by the documentation: the model adopts the implementation\'s choice and checks the constraints',
 ]
 _SYS = {}
@@ -57,10 +57,44 @@ def actions(sysm):
   return acts
 
 
+def multi_actions(sysm):
+  """Two studies whose names differ only where one has a SQL LIKE wildcard: the same worker suggests in both, so a
+  hand-out that looks at the sibling study's ACTIVE / REQUESTED trials shows as a wrong count or a foreign trial."""
+  cfg = sysm.cfg
+  canon = sysm.canons()[0]
+  acts = []
+  for s in cfg['studies']:
+    st = lifecycle.study_of(canon, s)
+    if st is None:
+      acts.append(('CreateStudy', s))
+      continue
+    ts = lifecycle.trials_of(canon, s) or []
+    room = cfg['max_trials'] - len(ts)
+    nops = 0
+    for s_, c_, ops in dict(canon)['ops']:
+      if s_ == s and c_ == 'a':
+        nops = len(ops)
+    own = len([t for t in ts if t['state'] == 'ACTIVE' and t['client'] == 'a'])
+    req = len([t for t in ts if t['state'] == 'REQUESTED'])
+    for n in cfg['counts']:
+      if nops < cfg['max_ops'] and max(0, n - own - req) <= room:
+        acts.append(('SuggestTrials', s, 'a', n))
+      else:
+        sysm.pruned += 1
+    if room >= 1:
+      acts.append(('CreateTrial', s, 'requested', 0.25))
+    else:
+      sysm.pruned += 1
+    for t in ts[:1]:
+      acts.append(('CompleteTrial', s, int(t['id']), 'final'))
+    acts.append(('ListTrials', s))
+  return acts
+
+
 def system(cfg):
   k = repr(sorted(cfg.items()))
   if k not in _SYS:
-    _SYS[k] = lifecycle.ServiceSystem('C02', cfg, actions)
+    _SYS[k] = lifecycle.ServiceSystem('C02', cfg, multi_actions if cfg.get('multi') else actions)
   return _SYS[k]
 
 
@@ -71,10 +105,12 @@ def expand(task):
 def run(ctx):
   if ctx.quick:
     plans = [({'backends': ['ram'], 'max_trials': 4, 'max_ops': 3, 'counts': (1, 2, 3), 'max_id': 7}, 4),
-             ({'backends': ['ram', 'sqlmem'], 'max_trials': 3, 'max_ops': 2, 'counts': (1, 2), 'max_id': 6}, 4)]
+             ({'backends': ['ram', 'sqlmem'], 'max_trials': 3, 'max_ops': 2, 'counts': (1, 2), 'max_id': 6}, 4),
+             ({'backends': ['ram', 'sqlmem'], 'multi': True, 'studies': ('s_1', 'sx1'), 'clients': ('a',), 'max_trials': 2, 'max_ops': 2, 'counts': (1, 2), 'max_id': 3}, 6)]
   else:
     plans = [({'backends': ['ram'], 'max_trials': 5, 'max_ops': 4, 'counts': (1, 2, 3), 'max_id': 9}, 7),
-             ({'backends': ['ram', 'sqlmem', 'sqlfile'], 'max_trials': 4, 'max_ops': 3, 'counts': (1, 2, 3), 'max_id': 7}, 5)]
+             ({'backends': ['ram', 'sqlmem', 'sqlfile'], 'max_trials': 4, 'max_ops': 3, 'counts': (1, 2, 3), 'max_id': 7}, 5),
+             ({'backends': ['ram', 'sqlmem', 'sqlfile'], 'multi': True, 'studies': ('s_1', 'sx1', 'S%', 's1'), 'clients': ('a',), 'max_trials': 2, 'max_ops': 2, 'counts': (1, 2), 'max_id': 3}, 7)]
   cov = {'states': 0, 'transitions': 0, 'traces_validated_against_impl': 0, 'samples': [], 'runs': [], 'exhaustive': True}
   for cfg, depth in plans:
     s = statespace.Search(ctx, 'expand', depth, cfg, chunk=16)
